@@ -15,6 +15,7 @@ struct Preemption {
   int task;       // the task that is interrupted …
   uint64_t at;    // … when its at-th library basic-block event occurs (1-based)
   int to;         // the task that receives the baton (if finished: the next live one)
+  uint64_t quantum = 0;  // if > 0: after that many of its own events, `to` hands the baton back
 };
 
 struct TaskReport {
